@@ -27,6 +27,9 @@ pub struct RowModel<T: Sc> {
     pub dentries: Vec<(usize, usize, usize, T)>,
     /// the basis evaluation fails whenever the first model parameter exceeds the threshold
     pub fail_eval: Option<T>,
+    /// `set_params` REJECTS the parameters (returns an error, keeps the old ones) whenever the first new
+    /// parameter exceeds the threshold
+    pub fail_set: Option<T>,
 }
 impl<T: Sc> RowModel<T> {
     fn fix_eval(&self, m: DMatrix<T>) -> DMatrix<T> {
@@ -67,6 +70,11 @@ impl<T: Sc> SeparableNonlinearModel for RowModel<T> {
         self.inner.output_len()
     }
     fn set_params(&mut self, p: OVector<T, Dyn>) -> Result<(), HErr> {
+        if let Some(thr) = self.fail_set {
+            if p.len() > 0 && p[0] > thr {
+                return Err(HErr("parameters outside the domain of the model".to_string()));
+            }
+        }
         self.inner.set_params(p)
     }
     fn params(&self) -> OVector<T, Dyn> {
@@ -187,6 +195,8 @@ pub fn emit_twin_case_f<T: Sc>(
     // and queried, Jacobian included; the original, queried again afterwards WITHOUT any update, must
     // answer exactly as before - copies of a problem are independent objects (round 12)
     if let Some(mut cl) = prob.try_clone() {
+        // the clone as it is: it IS the problem it was copied from (weights applied once, same cache)
+        emit_outputs(out, "twinCloneSelf", cl.as_ref());
         let iv = DVector::from_vec(c.init.clone());
         let _ = guarded(|| {
             cl.set(&iv);
@@ -367,6 +377,7 @@ fn one_wtwin<T: Sc>(out: &mut Out, rng: &mut Rng, thorough: bool, i: usize) {
             fail_deriv: None,
             dentries: vec![],
             fail_eval,
+            fail_set: None,
         }))
     } else {
         any_model(&c.recipe, &c.init, c.built)
@@ -386,6 +397,7 @@ fn one_wtwin<T: Sc>(out: &mut Out, rng: &mut Rng, thorough: bool, i: usize) {
             fail_deriv: None,
             dentries: vec![],
             fail_eval,
+            fail_set: None,
         }));
         let mut ys = c.y.clone();
         for j in 0..ys.ncols() {
@@ -414,6 +426,7 @@ fn one_wtwin<T: Sc>(out: &mut Out, rng: &mut Rng, thorough: bool, i: usize) {
             fail_deriv: None,
             dentries: vec![],
             fail_eval: None,
+            fail_set: None,
         }));
         let mut yz = c.y.clone();
         for r in zeros.iter() {
@@ -609,6 +622,9 @@ fn one_par<T: Sc>(out: &mut Out, rng: &mut Rng, thorough: bool, i: usize, thread
         T::of(a0[a0.len() / 2] + 1e-3)
     };
     let fail_eval: Option<T> = if i % 8 == 3 { Some(thr_mid) } else { None };
+    // one case in eight: `set_params` itself REJECTS some of the parameter vectors (round 13): both
+    // flavours must end up without a cache there
+    let fail_set: Option<T> = if i % 8 == 5 { Some(thr_mid) } else { None };
     let huge: Option<f64> = if i % 8 == 7 {
         // cycled by index: every magnitude class in every run
         Some(if T::WIDTH == 32 { [1e37, 1e-36][(i / 8) % 2] } else { [1e307, 1e-300, 1e306][(i / 8) % 3] })
@@ -617,7 +633,7 @@ fn one_par<T: Sc>(out: &mut Out, rng: &mut Rng, thorough: bool, i: usize, thread
     };
     let n_rows = c.recipe.n();
     let mk = |c: &StateCase<T>| -> WM<T> {
-        if fail.is_none() && fail_eval.is_none() && huge.is_none() {
+        if fail.is_none() && fail_eval.is_none() && huge.is_none() && fail_set.is_none() {
             return wrap_any(any_model(&c.recipe, &c.init, c.built));
         }
         wrap_any(AnyModel::Row(Box::new(RowModel {
@@ -628,6 +644,7 @@ fn one_par<T: Sc>(out: &mut Out, rng: &mut Rng, thorough: bool, i: usize, thread
             fail_deriv: fail,
             dentries: vec![],
             fail_eval,
+            fail_set,
         })))
     };
     let primary = match dynp(fl, mk(&c), &c.y, w.as_ref(), c.eps) {
@@ -655,7 +672,7 @@ fn one_par<T: Sc>(out: &mut Out, rng: &mut Rng, thorough: bool, i: usize, thread
             if fail_eval.is_some() { 1 } else { 0 },
             // the harness tables do not describe a model that fails to evaluate or is scaled to the edge of
             // the floating-point range: such cases are judged by the twins alone
-            if fail_eval.is_some() || huge.is_some() { " only=twins" } else { "" }
+            if fail_eval.is_some() || huge.is_some() || fail_set.is_some() { " only=twins" } else { "" }
         ),
         &c,
         primary,
